@@ -4,7 +4,7 @@ from __future__ import annotations
 import random
 import re
 
-from . import common, gen_prog, iltext, k2, semprop
+from . import diffrun, common, gen_prog, iltext, k2, semprop
 
 T = gen_prog.INT_TYPES
 SUBS = {"clz32": "uint32_t", "clz64": "uint64_t", "clo32": "uint32_t", "clo64": "uint64_t", "revbit16": "uint16_t", "revbit32": "uint32_t",
@@ -112,9 +112,40 @@ def extra(ctx):
                                              {"c": 0, "entry": "sub", "name": outer, "ret": t2, "params": [f"{t1} x"], "code": f"{{ return {inner}(x); }}"},
                                              {"c": 0, "entry": "stmt", "code": f"{{ RddV = {outer}(RssV); }}"}]})
         fwd.append((1000 + j, inner, outer, t1, t2))
+    # routines whose `return` sits in a branch / after statements while a nested call of the CONDITION (or of an earlier statement) is involved:
+    # the compiled body must sequence the nested call before the branch that reads its result (oracle: TmpDef.tmp_def on the real body)
+    rbodies = ["{ if (clz32(x) > 3) { return 1; } else { return 0; } }", "{ if (clz32(x) > 3) { return 1; } return 0; }",
+               "{ if (x > 3) { return clz32(x); } else { return clo32(x); } }", "{ PT y = x + 1; return clz32(y); }",
+               "{ if (clz32(x) > clo32(x)) { if (revbit32(x) > 7) { return 2; } return 1; } return 0; }",
+               "{ PT y = clz32(x); if (y > 3) { return y; } else { return clo32(y); } }"]
+    rsubs = []
+    for j, body in enumerate(rbodies):
+        pt = rnd.choice(["uint32_t", "int32_t", "uint64_t"])
+        name = f"gen_ret_{j}"
+        hs.append({"id": 2000 + j, "steps": [{"c": 0, "entry": "sub", "name": name, "ret": "uint32_t", "params": [f"{pt} x"], "code": body.replace("PT", pt)},
+                                             {"c": 0, "entry": "stmt", "code": f"{{ RdV = {name}(RsV); }}"}]})
+        rsubs.append((2000 + j, name, pt, body.replace("PT", pt)))
     hres = k2.run_histories(hs)
     bad = []
     byid = {h["id"]: (h, hr) for h, hr in zip(hs, hres)}
+    tcases = []
+    for hid, name, pt, body in rsubs:
+        st = byid[hid][1].get("steps", [])
+        if st and st[0].get("ok"):
+            try:
+                tcases.append(((hid, name, pt, body), iltext.parse_body(st[0]["text"], [("x", True)])))
+            except iltext.ILParseError as e:
+                bad.append((byid[hid][0]["steps"][0], "malformed", str(e)))
+    try:
+        with common.Lock():
+            td = diffrun.tmpdef_bodies("C08", tcases)
+        for (hid, name, pt, body), v in td.items():
+            if v is False:
+                bad.append((byid[hid][0]["steps"][0], "the compiled body reads a compiler temporary before it is written",
+                            f"uint32_t {name}({pt} x) {body}: the result of a nested call is used (by a branch condition / a return) before the call is sequenced"))
+        ctx["stats"]["generated_routine_bodies_checked_for_temporary_order"] = len(td)
+    except Exception as e:
+        ctx["broken"].append(Broken("correspondence", "tmp_def on generated sub-routine bodies", str(e)[-800:])) if "broken" in ctx else None
     for hid, inner, outer, t1, t2 in fwd:
         h, hr = byid[hid]
         st = hr.get("steps", [])
